@@ -1,3 +1,98 @@
-import EpsicProofs.Lemmas.Algebra
+import EpsicProofs.Lemmas.Stokes
+/-! # C15 — Minkowski forms equal the Gaussian fourth-moment traces they stand for -/
+set_option linter.unusedSectionVars false
+set_option linter.unusedVariables false
 namespace Epsic.C15
+open Epsic Epsic.Pauli
+variable {K : Type} [Field K] [DecidableEq K] [CharZero K]
+
+/-- coherency matrix of a Stokes vector (linear basis) -/
+def rho (a : Vec 4 K) : Jones K := convertStokes Basis.linear a
+/-- the Pauli basis -/
+def sigma (i : Fin 4) : Jones K := Pauli.matrix i
+
+macro "comp" : tactic =>
+  `(tactic| (simp [epsic, Cx.norm_def] <;> (try field_simp) <;> ring))
+
+/-! ## inner product -/
+theorem inner_formula (a b : Vec 4 K) :
+    Minkowski.inner a b = a 0 * b 0 - (a 1 * b 1 + a 2 * b 2 + a 3 * b 3) := by
+  simp only [Minkowski.inner]; ring
+theorem inner_symm (a b : Vec 4 K) : Minkowski.inner a b = Minkowski.inner b a := by
+  simp only [Minkowski.inner]; ring
+theorem inner_add_left (a c b : Vec 4 K) :
+    Minkowski.inner (Vec.add a c) b = Minkowski.inner a b + Minkowski.inner c b := by
+  simp only [Minkowski.inner, Vec.add]; ring
+theorem inner_smul_left (s : K) (a b : Vec 4 K) :
+    Minkowski.inner (Vec.smul a s) b = s * Minkowski.inner a b := by
+  simp only [Minkowski.inner, Vec.smul]; ring
+theorem inner_add_right (a b c : Vec 4 K) :
+    Minkowski.inner a (Vec.add b c) = Minkowski.inner a b + Minkowski.inner a c := by
+  simp only [Minkowski.inner, Vec.add]; ring
+theorem inner_smul_right (s : K) (a b : Vec 4 K) :
+    Minkowski.inner a (Vec.smul b s) = s * Minkowski.inner a b := by
+  simp only [Minkowski.inner, Vec.smul]; ring
+/-- the inner product of a vector with itself is its Lorentz invariant -/
+theorem inner_self (a : Vec 4 K) : Minkowski.inner a a = Stokes.invariant a := by
+  simp only [Minkowski.inner, Stokes.invariant, Stokes.sqrVect, Stokes.getVector, Vec.normsq, sumFin_three, v3]
+  ring
+
+/-! ## outer product -/
+theorem outer_add_left (a c b : Vec 4 K) (i j : Fin 4) :
+    Minkowski.outer (Vec.add a c) b i j = Minkowski.outer a b i j + Minkowski.outer c b i j := by
+  simp only [Minkowski.outer, Minkowski.inner, Vec.add]
+  split_ifs <;> (try simp only [half_eq]) <;> ring
+theorem outer_smul_left (s : K) (a b : Vec 4 K) (i j : Fin 4) :
+    Minkowski.outer (Vec.smul a s) b i j = s * Minkowski.outer a b i j := by
+  simp only [Minkowski.outer, Minkowski.inner, Vec.smul]
+  split_ifs <;> (try simp only [half_eq]) <;> ring
+theorem outer_add_right (a b c : Vec 4 K) (i j : Fin 4) :
+    Minkowski.outer a (Vec.add b c) i j = Minkowski.outer a b i j + Minkowski.outer a c i j := by
+  simp only [Minkowski.outer, Minkowski.inner, Vec.add]
+  split_ifs <;> (try simp only [half_eq]) <;> ring
+theorem outer_smul_right (s : K) (a b : Vec 4 K) (i j : Fin 4) :
+    Minkowski.outer a (Vec.smul b s) i j = s * Minkowski.outer a b i j := by
+  simp only [Minkowski.outer, Minkowski.inner, Vec.smul]
+  split_ifs <;> (try simp only [half_eq]) <;> ring
+/-- `outer(A,B)ᵀ = outer(B,A)` -/
+theorem outer_transpose (a b : Vec 4 K) (i j : Fin 4) :
+    Minkowski.outer a b j i = Minkowski.outer b a i j := by
+  simp only [Minkowski.outer, Minkowski.inner]
+  by_cases h : i = j
+  · subst h; simp only [if_true]; split_ifs <;> ring
+  · have h' : ¬ j = i := fun e => h e.symm
+    simp only [h, h', if_false]; ring
+
+/-- the coherency matrix in the linear basis, explicitly -/
+theorem rho_eq (a : Vec 4 K) :
+    rho a = ⟨⟨(a 0 + a 1)/2, 0⟩, ⟨a 2 / 2, -(a 3 / 2)⟩, ⟨a 2 / 2, a 3 / 2⟩, ⟨(a 0 - a 1)/2, 0⟩⟩ := by
+  ext <;> simp [rho, epsic] <;> ring
+theorem sigma_eq (i : Fin 4) : (sigma i : Jones K) =
+    match i with
+    | 0 => ⟨⟨1,0⟩, ⟨0,0⟩, ⟨0,0⟩, ⟨1,0⟩⟩ | 1 => ⟨⟨1,0⟩, ⟨0,0⟩, ⟨0,0⟩, ⟨-1,0⟩⟩
+    | 2 => ⟨⟨0,0⟩, ⟨1,0⟩, ⟨1,0⟩, ⟨0,0⟩⟩ | 3 => ⟨⟨0,0⟩, ⟨0,-1⟩, ⟨0,1⟩, ⟨0,0⟩⟩ := by
+  fin_cases i <;> (ext <;> simp [sigma, epsic])
+
+set_option maxHeartbeats 1600000 in
+/-- `outer(A,A)` has entries `trace(σ_i ρ_A σ_j ρ_A)` -/
+theorem outer_self_trace (a : Vec 4 K) (i j : Fin 4) :
+    (sigma i * rho a * sigma j * rho a).trace = Cx.ofReal (Minkowski.outer a a i j) := by
+  rw [rho_eq, sigma_eq, sigma_eq]
+  fin_cases i <;> fin_cases j <;> apply Cx.ext' <;>
+    simp [Jones.mul_def, Jones.mul, Jones.trace, Minkowski.outer, Minkowski.inner] <;> ring
+set_option maxHeartbeats 3200000 in
+/-- `outer(A,B) + outer(B,A)` has entries `trace(σ_i ρ_A σ_j ρ_B) + trace(σ_i ρ_B σ_j ρ_A)` -/
+theorem outer_sum_trace (a b : Vec 4 K) (i j : Fin 4) :
+    (sigma i * rho a * sigma j * rho b).trace + (sigma i * rho b * sigma j * rho a).trace
+      = Cx.ofReal (Minkowski.outer a b i j + Minkowski.outer b a i j) := by
+  rw [rho_eq, rho_eq, sigma_eq, sigma_eq]
+  fin_cases i <;> fin_cases j <;> apply Cx.ext' <;>
+    simp [Jones.mul_def, Jones.mul, Jones.trace, Minkowski.outer, Minkowski.inner] <;> ring
+
+/-! non-vacuity: a concrete vector with non-zero invariant and a non-trivial outer product -/
+example : Minkowski.inner (v4 (3:ℚ) 1 2 2) (v4 3 1 2 2) = 0 := by
+  simp only [Minkowski.inner, v4]; norm_num
+example : Minkowski.outer (v4 (2:ℚ) 1 0 0) (v4 1 0 1 0) 1 2 = 1 := by
+  simp [Minkowski.outer, v4]
+
 end Epsic.C15
